@@ -488,7 +488,9 @@ class SimplicialComplex(Hypergraph):
 
                 if max_order is not None:
                     if len(members) > max_order + 1:
-                        combos = powerset(members, include_singletons=False)
+                        combos = powerset(
+                            members, include_singletons=False, max_size=max_order + 1
+                        )
                         faces += list(combos)
 
                         continue
@@ -582,7 +584,9 @@ class SimplicialComplex(Hypergraph):
 
             if max_order is not None:
                 if len(members) > max_order + 1:
-                    combos = powerset(members, include_singletons=False)
+                    combos = powerset(
+                            members, include_singletons=False, max_size=max_order + 1
+                        )
                     faces += list(combos)  # store faces
 
                     try:
